@@ -109,7 +109,7 @@ def run(rep, tier, seed, replay_file=None):
 
     t0 = time.time()
     # 2. code -> model: concurrent histories of a synchronized set, validated for linearizability
-    n = 240 if quick else 6000
+    n = 600 if quick else 9000
     shards = 6
     hists = []
     with cf.ThreadPoolExecutor(max_workers=shards) as ex:
@@ -119,8 +119,8 @@ def run(rep, tier, seed, replay_file=None):
             if rc != 0:
                 rep.infra_error("recorder failed: " + err[-800:])
             hists += [o["hist"] for o in outs if "hist" in o]
-    trace.validate_all(rep, COMP, "SetLinTrace", "SetLinTrace.cfg", hists, label="set/concurrent",
-                       shards=4 if quick else 6, key_fn=key_fn)
+    common.capped_validate_all(rep, COMP, "SetLinTrace", "SetLinTrace.cfg", hists, label="set/concurrent",
+                               shards=4 if quick else 6, key_fn=key_fn)
     if hists:
         rep.sample(dict(kind="recorded concurrent history", events=hists[0][:10]))
         bad = copy.deepcopy(max(hists, key=len))
